@@ -98,11 +98,11 @@ def build(which=("sim",)):
     with open(os.path.join(BIN, ".lock"), "w") as lk:
         fcntl.flock(lk, fcntl.LOCK_EX)
         if "sim" in which:
-            _build(os.path.join(BIN, "vipsim"), tags="faketime", cgo=False)
+            _build(os.path.join(BIN, "vipsim"), tags="faketime verif", cgo=False)
         if "real" in which:
-            _build(os.path.join(BIN, "vipreal"), cgo=False)
+            _build(os.path.join(BIN, "vipreal"), tags="verif", cgo=False)
         if "race" in which:
-            _build(os.path.join(BIN, "viprace"), race=True, cgo=True)
+            _build(os.path.join(BIN, "viprace"), tags="verif", race=True, cgo=True)
         if "node" in which:
             p = subprocess.run(["go", "build", "-o", os.path.join(BIN, "vipnode"), "."], cwd=REPO,
                                env=dict(GOENV, CGO_ENABLED="0"), stdout=subprocess.PIPE, stderr=subprocess.STDOUT, text=True)
